@@ -3,9 +3,12 @@
 From CCTZ Require Import Base SrcConstants Cal CivilImpl PosixImpl ZoneLoad FormatImpl FmtSpec FmtProofs.
 Local Open Scope Z_scope.
 
-(* the broken-down result a lookup can produce *)
+(* the broken-down result a lookup can produce on any accepted zone: the loader
+   bounds type-table offsets by 24 h, but footer-derived types reach 24:59:59
+   and the default dst one hour more, i.e. |offset| <= 93599 s (25:59:59); cf.
+   ZoneRefineDefs.type_ok and LoadCert.wide_footer_certified *)
 Definition al_ok (al : alookup) : Prop :=
-  valid_fields (al_cs al) = true /\ int64 (fy (al_cs al)) /\ -86400 <= al_off al <= 86400.
+  valid_fields (al_cs al) = true /\ int64 (fy (al_cs al)) /\ -93599 <= al_off al <= 93599.
 
 (* NO format string, however malformed (any bytes, dangling %, %E, %E*, %:,
    10^4-digit counts, embedded NULs), makes the formatter overflow its 21-byte
